@@ -175,12 +175,12 @@ def small_alphabet(U):
     ]
 
 
-def script_from_word(confs, groups, word, U=2, t0=20):
+def script_from_word(confs, groups, word, U=2, t0=200):
     ops = []
     t = t0
     req = 0
     for (name, dt, acts, fq, kq) in word:
-        t = max(1, t + dt)
+        t = max(100, t + dt)      # readings stay far above startsecs*U: the code uses laststart == 0 as 'never started'
         acts2 = []
         for a in acts:
             a = list(a)
@@ -218,7 +218,7 @@ def random_script(rng, U=2, nprocs=None, maxlen=30, hostile=0.15, shutdown=0.25,
     groups = []
     for g in range(ng):
         groups.append({'priority': rng.choice([1, 5, 5, 999]), 'procs': [i for i, c in enumerate(confs) if c['group'] == g]})
-    t = rng.choice([1, 7, 20, 1000])
+    t = rng.choice([100, 107, 200, 1000])
     ops = []
     req = 0
     length = rng.randrange(3, maxlen)
@@ -233,7 +233,7 @@ def random_script(rng, U=2, nprocs=None, maxlen=30, hostile=0.15, shutdown=0.25,
             dt = rng.randrange(1, 2 * U + 1)
         else:
             dt = rng.randrange(2 * U, 15 * U)
-        t = max(1, t + dt)
+        t = max(100, t + dt)
         acts = []
         for _k in range(rng.choice([0, 0, 1, 1, 1, 2, 3])):
             r = rng.random()
